@@ -1,3 +1,4 @@
 INIT InitS
 NEXT Next
 INVARIANT SupergatesOK
+CHECK_DEADLOCK FALSE
